@@ -107,6 +107,9 @@ class PathRun:
         self.depth = 0
         self.tier = 'T1'
         self.handles = 0
+        self.fields = {}       # attribute name -> current z3 Array(Val -> Val): mutable attributes of opaque objects
+        self.fields0 = {}
+        self.pre_fields = {}
 
     # -- naming ---------------------------------------------------------
     def fresh(self, base):
@@ -278,6 +281,23 @@ class PathRun:
 
     def snapshot_pre(self):
         self.pre_heap = {k: dict(v) for k, v in self.heap.items()}
+        self.pre_fields = dict(self.fields)
+
+    def field_arr(self, name, old=False):
+        if name not in self.fields0:
+            a = z3.Const('F_' + name, z3.ArraySort(Val, Val))
+            self.fields0[name] = a
+            self.fields.setdefault(name, a)
+            self.pre_fields.setdefault(name, a)
+        if old:
+            return self.pre_fields.get(name, self.fields0[name])
+        return self.fields[name]
+
+    def fld(self, name, t, old=False):
+        return z3.Select(self.field_arr(name, old), t)
+
+    def set_fld(self, name, t, v):
+        self.fields[name] = z3.Store(self.field_arr(name), t, v)
 
     # -- values -------------------------------------------------------------
     def new_handle(self, seqterm):
@@ -392,8 +412,10 @@ class PathRun:
             t = Val.VObj(z3.Int(name))
             if sh.truthy:
                 self.pc.append(truthyV(t))
+            if sh.isa:
+                self.pc.append(isinst(t, z3.IntVal(class_id(sh.isa))))
             for an, ash in sh.attrs.items():
-                c = self.val_constraint(field_fn(an)(t), ash)
+                c = self.val_constraint(self.fld(an, t), ash)
                 if c is not None:
                     self.pc.append(c)
             return SDyn(t, shape=sh)
@@ -450,9 +472,9 @@ class PathRun:
         if isinstance(sh, S.DateS): return z3.And(Val.is_VDate(t), Val.ord(t) >= 1, Val.ord(t) <= MAXORD)
         if isinstance(sh, S.NoneS): return Val.is_VNone(t)
         if isinstance(sh, S.Rec):
-            cs = [Val.is_VObj(t)] + ([truthyV(t)] if sh.truthy else [])
+            cs = [Val.is_VObj(t)] + ([truthyV(t)] if sh.truthy else []) + ([isinst(t, z3.IntVal(class_id(sh.isa)))] if sh.isa else [])
             for an, ash in sh.attrs.items():
-                c = self.val_constraint(field_fn(an)(t), ash)
+                c = self.val_constraint(self.fld(an, t), ash)
                 if c is not None:
                     cs.append(c)
             return z3.And(*cs)
